@@ -180,6 +180,50 @@ def continuation_then_blank_line(text, rng):
     return derive.replace_spans(text, spans) if spans else None
 
 
+def backslash_only_lines(text, rng):
+    """A physical line of nothing but the block's indentation and a backslash in front of a logical line: joined onto a blank
+    or comment-only line it is itself blank; joined onto the statement it leaves the statement where it was (the whitespace in
+    front of the first backslash is the indentation of what follows, whatever the joined line starts with)."""
+    toks, P = _toks(text)
+    if not toks:
+        return None
+    spans = []
+    first = True
+    for t in toks:
+        if t.type == T.NEWLINE:
+            first = True
+            continue
+        if t.type in (T.NL, T.COMMENT, T.INDENT, T.DEDENT):
+            continue
+        if first and t.type != T.ENDMARKER:
+            first = False
+            if rng.random() > .2:
+                continue
+            ls = P.starts[t.start[0] - 1]
+            ind = text[ls:P.idx(t.start)]
+            if ind.strip(" \t") != "":
+                continue
+            k = rng.randrange(7)
+            if k == 6:      # a backslash at column 0 leaves the measuring to the joined line itself
+                spans.append((ls, ls, "\\\n"))
+                continue
+            if "\t" in ind and k in (0, 1):
+                k = 2       # (the reference compares a continued tab indentation in columns and calls it inconsistent)
+            if k == 0:      # joined onto the statement's own line
+                spans.append((ls, ls, ind + "\\\n"))
+            elif k == 1 and ind and "\t" not in ind:   # ... whose own leading blanks no longer matter
+                spans.append((ls, P.idx(t.start), ind + "\\\n" + " " * rng.choice([0, 1, len(ind), len(ind) + 3])))
+            elif k == 2:    # joined onto an empty line
+                spans.append((ls, ls, ind + "\\\n\n"))
+            elif k == 3:    # ... with other blanks in front of the backslash than the block has
+                spans.append((ls, ls, " " * rng.choice([0, 1, 2, 5, 9]) + "\\\n" + " " * rng.choice([0, 0, 3]) + "\n"))
+            elif k == 4:    # joined onto a comment-only line
+                spans.append((ls, ls, ind + "\\\n" + rng.choice(["", ind, "  "]) + "# joined\n"))
+            else:           # two of them in a row
+                spans.append((ls, ls, ind + "\\\n" + ind + "\\\n\n"))
+    return derive.replace_spans(text, spans) if spans else None
+
+
 def bom(text, rng):
     return "﻿" + text if not text.startswith("﻿") else None
 
@@ -376,6 +420,7 @@ REWRITES = {
     "token_spacing": spaces_between_tokens,
     "tight_spacing": tight_spacing,
     "continuation_then_blank_line": continuation_then_blank_line,
+    "backslash_only_lines": backslash_only_lines,
     "redundant_parens": redundant_parens,
     "bom": bom,
     "eof_whitespace": eof_whitespace,
@@ -383,7 +428,7 @@ REWRITES = {
 }
 # rewrites that need an LF-only, form-feed-free input come first in a composition
 ORDER = ["redundant_parens", "reindent", "backslash_joins", "bracket_newlines", "token_spacing", "tight_spacing", "trailing_blanks", "blank_comment_lines",
-         "eol_comments", "continuation_then_blank_line", "form_feeds_between_tokens", "form_feeds", "eof_whitespace", "bom", "newline_style"]
+         "eol_comments", "continuation_then_blank_line", "backslash_only_lines", "form_feeds_between_tokens", "form_feeds", "eof_whitespace", "bom", "newline_style"]
 
 
 def compose(text, rng, k=None, names=None):
